@@ -408,18 +408,22 @@ def _same_identity(a, b) -> bool:  # type: ignore[no-untyped-def]
     return a.principal == b.principal and dict(a.claims) == dict(b.claims) and a.authenticated is b.authenticated
 
 
-def _pipeline_elements(slot: bool, n: int, cps: list) -> tuple[str, str]:  # type: ignore[type-arg]
+def _pipeline_elements(slot: bool, n: int, cps: list, quoted: bool = True) -> tuple[str, str]:  # type: ignore[type-arg]
+    """quoted: Envoy rendering (value double-quoted, quote/backslash escaped).  Unquoted: the hostile characters are
+    put raw after an unquoted value - outside quotes a backslash is an ordinary character (XFCC only knows escapes
+    inside a quoted value), so it must not glue the following ',' and the next element to this one."""
     e = ""
     k = 0
     for i in cps:
         if k >= n:
             break
-        e = e + _qc(chr(i))
+        e = e + (_qc(chr(i)) if quoted else chr(i))
         k += 1
-    return ('Subject="CN=' + _M0 + (e if not slot else "") + '"', 'Subject="CN=' + _M1 + (e if slot else "") + '"')
+    q = '"' if quoted else ""
+    return ("Subject=" + q + "CN=" + _M0 + (e if not slot else "") + q, "Subject=" + q + "CN=" + _M1 + (e if slot else "") + q)
 
 
-def _pipeline_ok(slot: bool, n: int, cps: list, mk=None) -> bool:  # type: ignore[type-arg,no-untyped-def]
+def _pipeline_ok(slot: bool, n: int, cps: list, mk=None, quoted: bool = True) -> bool:  # type: ignore[type-arg,no-untyped-def]
     """Property-level only: 'the identity returned comes only from the selected element'.
 
     (1) non-interference: what ``first`` returns for ``el0,el1`` is what the authenticator returns for
@@ -428,7 +432,7 @@ def _pipeline_ok(slot: bool, n: int, cps: list, mk=None) -> bool:  # type: ignor
         the marker) and mentions nothing of bobby's element, and vice versa.
     No exact principal text, no claim count, no claim key names."""
     mk = mk or (lambda h: _Req(True, h))
-    el0, el1 = _pipeline_elements(slot, n, cps)
+    el0, el1 = _pipeline_elements(slot, n, cps, quoted)
     header = el0 + "," + el1
     try:
         first = _AUTH[False](mk(header))
@@ -437,6 +441,10 @@ def _pipeline_ok(slot: bool, n: int, cps: list, mk=None) -> bool:  # type: ignor
         alone1 = _AUTH[True](mk(el1))
     except HarnessModelError:
         raise
+    except AuthFailure as e:
+        # a well-formed Envoy rendering must authenticate; a header with raw characters after an unquoted value is
+        # not one, and a hardened parser may refuse it as an invalid credential (no identity is returned at all)
+        return (not quoted) and e.reason is AuthReason.INVALID_CREDENTIAL
     except Exception:  # noqa: BLE001
         return False
     if not (first.authenticated is True and last.authenticated is True):
@@ -448,11 +456,13 @@ def _pipeline_ok(slot: bool, n: int, cps: list, mk=None) -> bool:  # type: ignor
     return not _mentions(first, _M1) and not _mentions(last, _M0)
 
 
-def _replay_pipeline(args: dict) -> str | None:
+def _replay_pipeline(args: dict, quoted: bool = True) -> str | None:
     cps = [args["i0"], args["i1"]]
-    if _pipeline_ok(bool(args["slot"]), args["n"], cps, mk=_real_req):
+    if not quoted and any(chr(i) in ',;"' for i in cps[: args["n"]]):
+        return None  # structural characters of the unquoted context: outside the item's claim
+    if _pipeline_ok(bool(args["slot"]), args["n"], cps, mk=_real_req, quoted=quoted):
         return None
-    el0, el1 = _pipeline_elements(bool(args["slot"]), args["n"], cps)
+    el0, el1 = _pipeline_elements(bool(args["slot"]), args["n"], cps, quoted)
     header = el0 + "," + el1
     try:
         f, l = _AUTH[False](_real_req(header)), _AUTH[True](_real_req(header))
@@ -471,6 +481,24 @@ def pipeline_identity_from_selected_element(slot: bool, n: int, i0: int, i1: int
     post: _
     """
     return _pipeline_ok(slot, n, [i0, i1])
+
+
+@cond(q=150, t=600, encoded=ENCODED, bound="unquoted Subject=CN=alice / Subject=CN=bobby + any %d code points below %#x (not , ; or double quote) appended raw to either" % (_N3, _CP3),
+      replay=lambda a: _replay_pipeline(a, quoted=False), signature=lambda args, conc: "C43:pipeline:unquoted-value-merges-elements")
+def pipeline_unquoted_value_keeps_elements_apart(slot: bool, n: int, i0: int, i1: int) -> bool:
+    """
+    pre: 0 <= n <= _N3 and 0 <= i0 < _CP3 and 0 <= i1 < _CP3
+    post: _
+    """
+    # the arbitrary-string half of the quantifier at identity level: a value that is NOT quoted, followed by any
+    # characters (backslash included), then ',' and the next element.  In the unquoted context ',', ';' and '"' are
+    # structure (they do delimit / open a quote), every other character - a backslash too - is data.
+    k = 0
+    for i in (i0, i1):
+        if k < n and (i == 44 or i == 59 or i == 34):
+            return True
+        k += 1
+    return _pipeline_ok(slot, n, [i0, i1], quoted=False)
 
 
 # ---------------------------------------------------------------------------
@@ -690,6 +718,13 @@ def _replay_plain_split(args: dict) -> str | None:
             els = mt._parse_xfcc(text)
             if len(els) != want_n:
                 return f"quote-free header {text!r} has {want_n} non-empty comma-separated element(s), parsed into {len(els)}: {els!r}"
+            if ";" not in text:
+                # the same pieces made observable: each becomes the one DNS value of an element of its own
+                header = ",".join("DNS=" + p for p in pieces)
+                els = mt._parse_xfcc(header)
+                got = [[x.strip() for x in el.dns] for el in els]
+                if got != [[p.strip()] for p in pieces]:
+                    return f"header {header!r}: {len(pieces)} element(s) with one DNS value each rendered, parsed into {els!r}"
             return None
         if "," in text:
             return None
@@ -708,13 +743,15 @@ def _replay_plain_split(args: dict) -> str | None:
 
 def _replay_quoted_segment(args: dict) -> str | None:
     """Property level: a quoted value holding delimiters / an escaped quote / an escaped backslash neither
-    splits its element (pair) nor swallows the next one.  Free neighbours x, y other than plain
-    alphanumerics are a text-level matter of the private splitter: not judged here."""
+    splits its element (pair) nor swallows the next one, whatever single character stands right before / after
+    it.  Neighbours that are themselves structure in the unquoted context (',' ';' '"') are not judged here."""
     d = ";" if args["semi"] else ","
     x = chr(args["x0"]) if args["nx"] else ""
     y = chr(args["y0"]) if args["ny"] else ""
     a, b = chr(args["a0"]), chr(args["b0"])
-    if '"' in (x, y, a, b) or "\\" in (a, b) or not all(c == "" or (c.isascii() and c.isalnum()) for c in (x, y)):
+    # free neighbours: anything but the structural characters of the unquoted context (a backslash included: outside
+    # quotes it is an ordinary character and must not keep the quote from opening / glue the next element)
+    if '"' in (x, y, a, b) or "\\" in (a, b) or not all(c == "" or c not in ',;"' for c in (x, y)):
         return None
     mid, plain = [("", ""), ('\\"', '"'), ("\\\\", "\\")][args["esc"]]
     quoted = '"' + a + d + mid + d + b + '"'
